@@ -39,32 +39,52 @@ def parseTP? (ws : List String) : Option (TP Rat) :=
 
 def stepLine (_ : Unit) (line : String) : Unit × String :=
   ((), match words line with
-  | ["number", which, u, dt, r, ru, rel] =>
-      (match parseORat? dt, parseRat? r, parseRat? ru, parseRat? rel with
-      | some dt, some r, some ru, some rel =>
-          if which = "births" then showR (birthsNumber (parseUnit u) dt r ru rel)
-          else if which = "deaths" then showR (deathsNumber (parseUnit u) dt r ru rel)
+  | ["number", which, u, dt, su, sdt, r, ru, rel] =>
+      (match parseORat? dt, parseORat? sdt, parseRat? r, parseRat? ru, parseRat? rel with
+      | some dt, some sdt, some r, some ru, some rel =>
+          if which = "births" then showR (birthsNumber (parseUnit u) dt (parseUnit su) sdt r ru rel)
+          else if which = "deaths" then showR (deathsNumber (parseUnit u) dt (parseUnit su) sdt r ru rel)
           else "bad-op"
-      | _, _, _, _ => "bad-op")
-  | "timepar" :: which :: u :: dt :: ru :: rel :: tp =>
-      (match parseORat? dt, parseRat? ru, parseRat? rel, parseTP? tp with
-      | some dt, some ru, some rel, some t =>
-          if which = "births" then showV (birthsTimePar (parseUnit u) dt t ru rel)
-          else if which = "deaths" then showV (deathsTimePar (parseUnit u) dt t ru rel)
+      | _, _, _, _, _ => "bad-op")
+  | "timepar" :: which :: u :: dt :: su :: sdt :: ru :: rel :: tp =>
+      (match parseORat? dt, parseORat? sdt, parseRat? ru, parseRat? rel, parseTP? tp with
+      | some dt, some sdt, some ru, some rel, some t =>
+          if which = "births" then showV (birthsTimePar (parseUnit u) dt (parseUnit su) sdt t ru rel)
+          else if which = "deaths" then showV (deathsTimePar (parseUnit u) dt (parseUnit su) sdt t ru rel)
           else "bad-op"
-      | _, _, _, _ => "bad-op")
-  | ["fert", u, dt, r, ru, rel, age, mn, mx, fec] =>
-      (match parseORat? dt, parseRat? r, parseRat? ru, parseRat? rel, parseRat? age, parseRat? mn, parseRat? mx, parseBool? fec with
-      | some dt, some r, some ru, some rel, some age, some mn, some mx, some fec =>
-          showR (fertilityNumber (parseUnit u) dt r ru rel age mn mx fec)
-      | _, _, _, _, _, _, _, _ => "bad-op")
+      | _, _, _, _, _ => "bad-op")
+  | ["fert", u, dt, su, sdt, r, ru, rel, age, mn, mx, fec] =>
+      (match parseORat? dt, parseORat? sdt, parseRat? r, parseRat? ru, parseRat? rel, parseRat? age, parseRat? mn, parseRat? mx, parseBool? fec with
+      | some dt, some sdt, some r, some ru, some rel, some age, some mn, some mx, some fec =>
+          showR (fertilityNumber (parseUnit u) dt (parseUnit su) sdt r ru rel age mn mx fec)
+      | _, _, _, _, _, _, _, _, _ => "bad-op")
+  | ["fertyear", index, now, dp] =>
+      (match parseRatList? index, parseRat? now, parseRat? dp with
+      | some ix, some now, some dp => "ok " ++ toString (fertilityYear ix now dp)
+      | _, _, _ => "bad-op")
+  | ["rescale", r, n, ninf] =>
+      (match parseRat? r, parseNat? n, parseNat? ninf with
+      | some r, some n, some ninf => "ok " ++ showRat (rescaleRate r n ninf)
+      | _, _, _ => "bad-op")
+  | ["lerp", y0, r0, y1, r1, y] =>
+      (match parseRat? y0, parseRat? r0, parseRat? y1, parseRat? r1, parseRat? y with
+      | some y0, some r0, some y1, some r1, some y => if y0 = y1 then "bad-op" else "ok " ++ showRat (lerp y0 r0 y1 r1 y)
+      | _, _, _, _, _ => "bad-op")
+  | ["edge", d, dt, n] =>
+      (match parseRat? d, parseRat? dt, parseNat? n with
+      | some d, some dt, some n => "ok " ++ showRat (edgeDurAfter d dt n) ++ " " ++ showBool (edgeActive d dt n)
+      | _, _, _ => "bad-op")
+  | ["netbeta", acts, dt] =>
+      (match parseRat? acts, parseRat? dt with
+      | some a, some dt => "ok " ++ showRat (netBetaExponent a dt)
+      | _, _ => "bad-op")
   | ["agebin", bins, age] =>
       (match parseRatList? bins, parseRat? age with
       | some b, some a => "ok " ++ toString (ageBin b a)
       | _, _ => "bad-op")
   | ["nearest", years, y] =>
       (match parseRatList? years, parseRat? y with
-      | some ys, some y => "ok " ++ toString (nearest ys y)
+      | some ys, some y => "ok " ++ toString (nearest ys y) ++ " " ++ (match nearestVal ys y with | some v => showRat v | none => "~")
       | _, _ => "bad-op")
   | ["ageinc", u, dt] =>
       (match parseORat? dt with | some dt => showR (ageIncrement (parseUnit u) dt) | none => "bad-op")
